@@ -11,7 +11,7 @@ import digital_rf.list_drf as L
 
 class SymFS:
     """files: path -> content id; dirs: set of paths.  log of mutating ops, snapshots after every content-changing op"""
-    def __init__(self, files, dirs): self.files = dict(files); self.dirs = set(dirs); self.log = []; self.snap = [dict(self.files)]; self.links = {}
+    def __init__(self, files, dirs): self.files = dict(files); self.dirs = set(dirs); self.log = []; self.snap = [dict(self.files)]; self.links = {}; self.mtime = {}
     def _snap(self): self.snap.append(dict(self.files))
 
 
@@ -25,6 +25,14 @@ class FakePath:
     def exists(self, p): return N(p) in self.fs.files or N(p) in self.fs.dirs
     def isfile(self, p): return N(p) in self.fs.files
     def isdir(self, p): return N(p) in self.fs.dirs
+    def lexists(self, p): return self.exists(p)
+    def islink(self, p): return False
+    def getsize(self, p):
+        if N(p) not in self.fs.files: raise FileNotFoundError(p)
+        return 10          # every file of the harness has the same size
+    def getmtime(self, p):
+        if N(p) not in self.fs.files: raise FileNotFoundError(p)
+        return self.fs.mtime.get(N(p), 1)
     def samefile(self, a, b):
         a, b = N(a), N(b)
         if a not in self.fs.files or b not in self.fs.files: raise FileNotFoundError(a)
@@ -33,6 +41,13 @@ class FakePath:
 
 class FakeOS:
     def __init__(self, fs): self.fs = fs; self.path = FakePath(fs); self.sep = '/'
+    def stat(self, p):
+        p = N(p)
+        if p not in self.fs.files and p not in self.fs.dirs: raise FileNotFoundError(p)
+        class St: pass
+        st = St(); st.st_size = 10; st.st_mtime = self.fs.mtime.get(p, 1); st.st_mtime_ns = st.st_mtime * 10**9; st.st_ino = hash(self.fs.links.get(p, p)); st.st_dev = 1; st.st_mode = 0o100644
+        return st
+    lstat = stat
     def makedirs(self, d, exist_ok=False):
         d = N(d)
         if d in self.fs.dirs and not exist_ok: raise FileExistsError(d)
@@ -68,12 +83,17 @@ class FakeCmp:
         return self.fs.files[a] == self.fs.files[b]
 
 
+class SameFileError(OSError):
+    """shutil.SameFileError (an OSError): source and destination are the same inode"""
+
+
 class FakeShutil:
     def __init__(self, fs): self.fs = fs
     def copy2(self, a, b):
         a, b = N(a), N(b)
         if a not in self.fs.files: raise FileNotFoundError(a)
-        self.fs.files[b] = self.fs.files[a]; self.fs.log.append(('copy', a, b)); self.fs._snap()
+        if b in self.fs.files and self.fs.links.get(a, a) == self.fs.links.get(b, b): raise SameFileError(a)
+        self.fs.files[b] = self.fs.files[a]; self.fs.links.pop(b, None); self.fs.log.append(('copy', a, b)); self.fs._snap()
     def move(self, a, b):
         a, b = N(a), N(b)
         if a not in self.fs.files: raise FileNotFoundError(a)
@@ -119,9 +139,14 @@ def _link_fun():
     return m.event_handlers[0].mirror_fun
 
 
-def _mirror_one(method: int, src_there: bool, src_id: int, dst_there: bool, dst_id: int, tmp_there: bool, tmp_id: int, events: int) -> bool:
+SRC0 = '/s/ch/2020-01-01T00-00-00/rf@0.000.h5'      # a file of the same directory that no longer exists (late event)
+
+
+def _mirror_one(method: int, src_there: bool, src_id: int, dst_there: bool, dst_id: int, tmp_there: bool, tmp_id: int, events: int,
+                tmp_is_link: bool, late_first: bool) -> bool:
     """
     pre: 0 <= method <= 2 and 0 <= src_id <= 2 and 0 <= dst_id <= 2 and 0 <= tmp_id <= 2 and 1 <= events <= 3
+    pre: not tmp_is_link or (tmp_there and src_there and tmp_id == src_id)
     post: _
     """
     # one source file (possibly vanished), possibly an older / identical / different file already at the destination, possibly a stale
@@ -134,7 +159,9 @@ def _mirror_one(method: int, src_there: bool, src_id: int, dst_there: bool, dst_
     if dst_there: files[DST] = ('c', dst_id)
     if tmp_there: files[TMP] = ('c', tmp_id)
     fs = SymFS(files, ['/s/ch/2020-01-01T00-00-00', '/s/ch', '/s'])
+    if tmp_is_link: fs.links[TMP] = SRC         # the stale tmp. file is a hard link of the source (an interrupted link-mode mirror)
     h = _handler(fs, method)
+    if late_first: h.mirror_to_dest(SRC0)       # a late event for a file of the same directory that has vanished comes first
     for _ in range(events):
         h.mirror_to_dest(SRC)
     ok = True
@@ -145,6 +172,8 @@ def _mirror_one(method: int, src_there: bool, src_id: int, dst_there: bool, dst_
         if method != 1: ok = ok and fs.files.get(SRC) == ('c', src_id)
     else:
         ok = ok and fs.files.get(DST) == (('c', dst_id) if dst_there else None)
+        # nor is a staged tmp. file touched: after an interrupted move it may hold the only copy of the data
+        ok = ok and fs.files.get(TMP) == (('c', tmp_id) if tmp_there else None)
     # the final name is only ever written by rename from the tmp. name
     for op in fs.log:
         if op[0] in ('copy', 'move', 'link', 'symlink') and op[2] == DST: ok = False
@@ -192,9 +221,10 @@ class Args:
     pass
 
 
-def _run_cmd(cmd: int, ch_style: int, present0: bool, present1: bool, symbolic: bool) -> bool:
+def _run_cmd(cmd: int, ch_style: int, present0: bool, present1: bool, symbolic: bool, dst_pre: bool) -> bool:
     """
     pre: 0 <= cmd <= 2 and 0 <= ch_style <= 3
+    pre: not dst_pre or (cmd != 2 and present0)
     post: _
     """
     # cp (0) / mv (1) / ln (2) with the listing replaced by a stub yielding 0..2 files below the (normalised) source: exactly the listed
@@ -207,6 +237,10 @@ def _run_cmd(cmd: int, ch_style: int, present0: bool, present1: bool, symbolic: 
     if present1: rels.append('drf_properties.h5')
     files = {base + '/' + r: ('c', i) for i, r in enumerate(rels)}
     fs = SymFS(files, ['/s', '/s/ch0', base + '/2020-01-01T00-00-00'])
+    if dst_pre:
+        # cp / mv onto a destination that already holds a different (same-size, newer) file at the path of the first listed file
+        dpre = ('/d' if not chs else '/d/ch0') + '/2020-01-01T00-00-00/rf@1.000.h5'
+        fs.files[dpre] = ('old', 0); fs.mtime[dpre] = 2; fs.dirs.update(['/d', '/d/ch0', posixpath.dirname(dpre)]); fs.snap = [dict(fs.files)]
     fos = FakeOS(fs)
     calls = []
     def ils(path, **kw):
